@@ -72,7 +72,7 @@ class IdealContext:
         self.n += 1
         data = [d for t, d in bufs if t == BT.data]
         assert len(data) == 1
-        sealed = self.c.bytes(f"sealed{self.n}", len(data[0]))
+        sealed = self.c.blob_of_len(f"sealed{self.n}", V.blen(data[0]))
         sig = self.c.bytes(f"wsig{self.n}", self.sig_size)
         self.wrap_calls.append(dict(bufs=bufs, encrypt=encrypt, sealed=sealed, sig=sig))
         out = []
